@@ -258,6 +258,8 @@ class Run:
                       "max_fw_err_ulp": 0.0, "max_fw_err_at": "", "max_bw_rel_err": 0.0, "max_bw_rel_err_at": "",
                       "max_softmax_strict_err_ulp": 0.0, "max_softmax_strict_err_at": "", "by_kind": {}}
         self.problems = []   # dicts
+        self.zero_findings = []
+        self.known = []      # (witness, case, expected, got): re-confirmed instances of registered finding classes
 
     def add(self, line, **meta):
         self.cases.append((line, meta))
@@ -342,6 +344,12 @@ class Run:
                         h = fd_step(x, True)
                         self.add("%s fn %s %d" % (D, repr(f32(x + h)), k), kind="fd", dev=D)
                         self.add("%s fn %s %d" % (D, repr(f32(x - h)), k), kind="fd", dev=D)
+            if self.which == "C01":
+                # x^k is smooth at x = 0 (k >= 1) but the kernels compute k*gy*y/x there (finding F1)
+                for k in (1, 2, 3):
+                    self.add("%s n 0.0 %d 1.0" % (D, k), kind="zero", dev=D, name="pown_bw", true=(1.0 if k == 1 else 0.0), idx=1)
+                self.add("%s c pow_const_r 0.0 2.0 1.0" % D, kind="zero", dev=D, name="pow_const_r_bw", true=0.0, idx=1)
+                self.add("%s b pow 0.0 2.0 1.0" % D, kind="zero", dev=D, name="pow_bw", true=0.0, idx=1)
             # exponents at the int32 boundary, on bases whose powers are exact
             for k in (2147483647, -2147483647, -2147483648, 2147483646, 65536, -65537, 1 << 30):
                 for x in (1.0, -1.0):
@@ -356,15 +364,10 @@ class Run:
                     s = ",".join(repr(v) for v in l)
                     for fn in ("lse", "lsm", "sm"):
                         self.add("%s %s %s" % (D, fn, s), kind=fn, dev=D, xs=l)
-                    if max(l) - min(l) > FLT_MAX:
-                        # log_softmax itself (x_min - logsumexp) is not representable in float32:
-                        # outside the domain of softmax_cross_entropy (the kernel returns inf / NaN there)
-                        self.stats["sce_skipped_unrepresentable_log_softmax"] = self.stats.get("sce_skipped_unrepresentable_log_softmax", 0) + 1
-                        continue
                     t = [f32(1.0 / len(l))] * len(l)
                     self.add("%s sce %s %s" % (D, s, ",".join(repr(v) for v in t)), kind="sce", dev=D, xs=l, ts=t)
                     onehot = [0.0] * len(l)
-                    onehot[r.randrange(len(l))] = 1.0
+                    onehot[l.index(max(l)) if max(l) - min(l) > FLT_MAX else r.randrange(len(l))] = 1.0
                     self.add("%s sce %s %s" % (D, s, ",".join(repr(v) for v in onehot)), kind="sce", dev=D, xs=l, ts=onehot)
         self.stats["cases"] = len(self.cases)
 
@@ -465,7 +468,11 @@ class Run:
                              line, "numbers", outs[i] if i < len(outs) else None, "driver", found=True)
                 i += 1
                 continue
-            if k == "f1":
+            if k == "zero":
+                got = v[m["idx"]]
+                if got != got or abs(got - m["true"]) > 1e-6:
+                    self.zero_findings.append({"case": line, "kernel": m["name"], "true_derivative": m["true"], "got": got})
+            elif k == "f1":
                 self.chk_fw(line, m["op"] + "_fw", v[0], DOC1[m["op"]](m["x"]), F("fw_" + m["op"], m["x"]))
             elif k == "u":
                 op, x, g = m["op"], m["x"], m["gy"]
@@ -542,17 +549,39 @@ class Run:
                     self.problem("C02", "%s returned %d values, expected %d" % (k, len(v), len(exact)), line, exact, v, "documented function")
                 else:
                     mx = max(abs(x) for x in xs)
-                    big = mx >= 20
+                    spread = max(xs) - min(xs)
+                    nm0 = {"lse": "logsumexp", "lsm": "log_softmax", "sm": "softmax", "sce": "softmax_cross_entropy"}[k]
                     for j, (got, ex) in enumerate(zip(v, exact)):
-                        nm = {"lse": "logsumexp", "lsm": "log_softmax", "sm": "softmax", "sce": "softmax_cross_entropy"}[k] + "[%d]" % j
+                        nm = nm0 + "[%d]" % j
                         if abs(ex) > FLT_MAX:
                             continue
-                        self.chk_fw(line, nm, got, ex, None, tol_scale=mx, tol_ulps=4.0 + len(xs), stable=big)
-                        if got == got and abs(got) != INF:
-                            e = abs(got - ex) / ulp32(max(1.0, abs(ex)))
-                            if e > self.stats["max_softmax_strict_err_ulp"]:
-                                self.stats["max_softmax_strict_err_ulp"] = round(e, 2)
-                                self.stats["max_softmax_strict_err_at"] = "%s -> %s[%d]: got %r exact %r" % (line, k, j, got, ex)
+                        st = self.stats
+                        st["fw_checked"] += 1
+                        if mx >= 20:
+                            st["stable_large_checked"] += 1
+                        nonfinite = got != got or abs(got) == INF
+                        strict = (4.0 + len(xs)) * ulp32(max(1.0, abs(ex)))
+                        err = INF if nonfinite else abs(got - ex)
+                        if not nonfinite:
+                            e = err / ulp32(max(1.0, abs(ex)))
+                            if e > st["max_softmax_strict_err_ulp"]:
+                                st["max_softmax_strict_err_ulp"] = round(e, 2)
+                                st["max_softmax_strict_err_at"] = "%s -> %s: got %r exact %r" % (line, nm, got, ex)
+                        if err <= strict:
+                            continue
+                        if nonfinite and spread > FLT_MAX:
+                            # D24: x_min - logsumexp(x) is not representable in float32
+                            self.known.append(("scalar-C02 :: softmax-family overflow spread>FLT_MAX :: %s -> %s = %r, exact %r"
+                                               % (line, nm, got, ex), line, ex, got))
+                        elif (not nonfinite) and k != "lse" and mx >= 8 and err <= (4.0 + len(xs)) * ulp32(max(1.0, abs(ex), mx)):
+                            # D23: finite, explained by the float32 rounding of logsumexp(x) (magnitude max|x_j|)
+                            self.known.append(("scalar-C02 :: softmax-family ulp large-logits :: %s -> %s = %r, exact %r (%.0f ulp of max(1,|exact|), max|x| = %g)"
+                                               % (line, nm, got, ex, err / ulp32(max(1.0, abs(ex))), mx), line, ex, got))
+                        elif nonfinite:
+                            self.problem("C02", "%s is not finite" % nm, line, ex, got, "documented function in double (finite result expected)")
+                        else:
+                            self.problem("C02", "%s deviates from the documented function by %.3g (%.1f ulp of max(1,|exact|); tolerance %.3g)"
+                                         % (nm, err, err / ulp32(max(1.0, abs(ex))), strict), line, ex, got, "documented function in double")
             i += 1
 
 
@@ -630,6 +659,26 @@ def run_part(ctx, which):
         if ctx.violation("scalar-" + which.lower(), obj, p["found"],
                          "%s: %s; expected %r got %r (%s)" % (p["case"], p["desc"], p["expected"], p["got"], p["oracle"])):
             reported += 1
+    # re-confirmed known-finding classes: reported unconditionally; ctx.violation turns a witness that
+    # matches known_findings.json into a KNOWN-FINDING line (exit 0), anything else stays a VIOLATION
+    if which == "C01":
+        for z in run.zero_findings[:12]:
+            t = z["case"].split()
+            kk = (" k=%s" % t[3]) if t[1] == "n" else (" k=%s" % t[4] if t[1] == "c" else " b=%s" % t[4])
+            w = "scalar-C01 :: %s at x=0%s: got %s expected %g (%s)" % (z["kernel"], kk, "NaN" if z["got"] != z["got"] else repr(z["got"]),
+                                                                    z["true_derivative"], z["case"])
+            ctx.violation("scalar-zero", {"kind": "scalar-elementwise", "part": which, "case": z["case"], "witness": w,
+                                          "theorem": "C01s_pown_bw_at_zero_refuted", "impl_driver": impl}, True, w)
+        cov["known_finding_instances"] = len(run.zero_findings)
+    else:
+        shown = {}
+        for (w, case, ex, got) in run.known:
+            cls = w.split(" :: ")[1]
+            shown[cls] = shown.get(cls, 0) + 1
+            if shown[cls] <= 2:
+                ctx.violation("scalar-known", {"kind": "scalar-elementwise", "part": which, "case": case, "witness": w,
+                                               "expected": ex, "got": got, "impl_driver": impl}, True, w)
+        cov["known_finding_instances"] = shown
     cov["problems"] = len(mine)
     found_any = any(p["found"] for p in mine)
     if not res["ok"] and not found_any:
